@@ -10,7 +10,18 @@ use crate::util::*;
 use std::io::{BufRead, Read, Seek, SeekFrom, Write};
 use std::sync::{Arc, Mutex};
 
-pub const KINDS: [std::io::ErrorKind; 3] = [std::io::ErrorKind::Other, std::io::ErrorKind::UnexpectedEof, std::io::ErrorKind::TimedOut];
+pub const KINDS: [std::io::ErrorKind; 10] = [
+    std::io::ErrorKind::Other,
+    std::io::ErrorKind::UnexpectedEof,
+    std::io::ErrorKind::TimedOut,
+    std::io::ErrorKind::NotFound,
+    std::io::ErrorKind::PermissionDenied,
+    std::io::ErrorKind::InvalidInput,
+    std::io::ErrorKind::InvalidData,
+    std::io::ErrorKind::AlreadyExists,
+    std::io::ErrorKind::WriteZero,
+    std::io::ErrorKind::BrokenPipe,
+];
 
 #[derive(Default, Debug, Clone)]
 pub struct ReadRunStats {
